@@ -665,7 +665,6 @@ void harness(void)
         VP_ASSERT(strs == NULL && n == 0, "failure returns nothing");
       }
     }
-    TAG_KEPT();
   }
 #else
 #  error "unknown OP"
